@@ -4,6 +4,7 @@ import json
 from harness import world, traces as tr, tlc
 
 UNIT = world.UNIT
+ENGAGED = {}
 
 
 def _scaled(score):
@@ -16,11 +17,34 @@ def _scaled(score):
     return iv
 
 
+import contextlib
+
+
+@contextlib.contextmanager
+def scaled_wrapping_replace():
+    """Used only to *classify* a violation as an instance of the recorded finding
+    'WrappingMatcher.replace() does not divide the threshold by its boost': the same
+    search is repeated with that one method corrected."""
+    from whoosh.matching import wrappers
+    orig = wrappers.WrappingMatcher.replace
+
+    def replace(self, minquality=0):
+        b = getattr(self, "boost", 1.0)
+        if minquality and b:
+            minquality = minquality / b
+        return orig(self, minquality)
+    wrappers.WrappingMatcher.replace = replace
+    try:
+        yield
+    finally:
+        wrappers.WrappingMatcher.replace = orig
+
+
 def hits_of(results):
     return [[int(dn), _scaled(sc)] for sc, dn in results.top_n]
 
 
-def obs_paths(searcher, q, paths, limits=(0, 1, 2, 3), cmp="full"):
+def obs_paths(searcher, q, paths, limits=(0, 1, 2, 3), cmp="full", alt=False):
     """Returns the list of observations for query object q through the given access paths."""
     from whoosh import sorting
     obs = []
@@ -50,8 +74,19 @@ def obs_paths(searcher, q, paths, limits=(0, 1, 2, 3), cmp="full"):
                 continue
 
             def f(k=k):
-                r = searcher.search(q, limit=k)
-                obs.append({"kind": "ranked", "path": "search(limit=%d)" % k, "k": k, "hits": hits_of(r), "cmp": cmp})
+                c = searcher.collector(limit=k)
+                searcher.search_with_collector(q, c)
+                r = c.results()
+                ENGAGED["searches"] = ENGAGED.get("searches", 0) + 1
+                if getattr(c, "skipped_times", 0):
+                    ENGAGED["skipped"] = ENGAGED.get("skipped", 0) + 1
+                if getattr(c, "replaced_times", 0) > 1:
+                    ENGAGED["replaced"] = ENGAGED.get("replaced", 0) + 1
+                o = {"kind": "ranked", "path": "search(limit=%d)" % k, "k": k, "hits": hits_of(r), "cmp": cmp}
+                if alt:
+                    with scaled_wrapping_replace():
+                        o["alt"] = hits_of(searcher.search(q, limit=k))
+                obs.append(o)
                 obs.append({"kind": "count", "path": "len(search(limit=%d))" % k, "n": len(r)})
             guard("search(limit=%d)" % k, f)
     if "unscored" in paths:
@@ -72,7 +107,11 @@ def obs_paths(searcher, q, paths, limits=(0, 1, 2, 3), cmp="full"):
             r = searcher.search(q, limit=None, terms=True)
             obs.append({"kind": "ranked", "path": "search(limit=None,terms=True)", "k": 0, "hits": hits_of(r), "cmp": cmp})
             r2 = searcher.search(q, limit=2, terms=True)
-            obs.append({"kind": "ranked", "path": "search(limit=2,terms=True)", "k": 2, "hits": hits_of(r2), "cmp": cmp})
+            o = {"kind": "ranked", "path": "search(limit=2,terms=True)", "k": 2, "hits": hits_of(r2), "cmp": cmp}
+            if alt:
+                with scaled_wrapping_replace():
+                    o["alt"] = hits_of(searcher.search(q, limit=2, terms=True))
+            obs.append(o)
             obs.append({"kind": "count", "path": "len(search(limit=2,terms=True))", "n": len(r2)})
         guard("search(terms=True)", f)
     return obs
